@@ -356,10 +356,37 @@ func hintName(c *ssa.CallCommon) string {
 	if p, ok := c.Value.(*ssa.Parameter); ok {
 		return p.Name()
 	}
+	if n := funcFieldName(c.Value); n != "" {
+		return n
+	}
 	if b, ok := c.Value.(*ssa.Builtin); ok {
 		return b.Name()
 	}
 	return ""
+}
+
+// funcFieldName: v is a function value loaded from a field of a struct (x.f where f has a function type): the field name.
+func funcFieldName(v ssa.Value) string {
+	u, ok := v.(*ssa.UnOp)
+	if !ok || u.Op != token.MUL {
+		return ""
+	}
+	if _, isFunc := u.Type().Underlying().(*types.Signature); !isFunc {
+		return ""
+	}
+	fa, ok := u.X.(*ssa.FieldAddr)
+	if !ok {
+		return ""
+	}
+	pt, ok := fa.X.Type().Underlying().(*types.Pointer)
+	if !ok {
+		return ""
+	}
+	stt, ok := pt.Elem().Underlying().(*types.Struct)
+	if !ok {
+		return ""
+	}
+	return stt.Field(fa.Field).Name()
 }
 
 func (fr *Frame) applyHints(c *ssa.CallCommon, pos token.Pos, st *State, instr *ssa.Call) {
@@ -450,6 +477,13 @@ func (fr *Frame) execCall(c *ssa.CallCommon, pos token.Pos, st *State, instr *ss
 		if fr.top && fr.contract != nil && fr.contract.Calls != nil {
 			if p, ok := c.Value.(*ssa.Parameter); ok {
 				if sub := fr.contract.Calls[p.Name()]; sub != nil {
+					return fr.applySigContract(sub, c, nil, args, pos, st, fr.baseEnv(st).names)
+				}
+			}
+			// H11: a function value loaded from a struct field (f.onPkt(...)) is addressed by the field name, like
+			// interface values loaded from a field in `assert before`
+			if n := funcFieldName(c.Value); n != "" {
+				if sub := fr.contract.Calls[n]; sub != nil {
 					return fr.applySigContract(sub, c, nil, args, pos, st, fr.baseEnv(st).names)
 				}
 			}
@@ -724,6 +758,8 @@ func (fr *Frame) applyContract(callee *ssa.Function, ct *Contract, args []Val, a
 	}
 	if ct.Trusted {
 		vc.note("trusted contract used: " + ct.Key)
+	} else if callee != vc.fn && callee.Blocks != nil && !ct.Pure {
+		vc.note("callee contract used: " + short) // check.go: must be verified by some registered check, or it is an assumption
 	}
 	if callee == vc.fn && fr.top {
 		// recursion: the measure must decrease and be bounded below
